@@ -904,13 +904,14 @@ class NestedContainer(Task, Iterable):
     def __dask_tokenize__(self):
         from dask.tokenize import tokenize
 
-        return (
-            type(self).__name__,
-            self.klass,
-            sorted(tokenize(a) for a in self.args),
-        )
-
-        return super().__dask_tokenize__()
+        tokens = [tokenize(a) for a in self.args]
+        if self.klass is set:
+            # a set has no element order
+            tokens = sorted(tokens)
+        elif self.klass is dict:
+            # the order of the (key, value) pairs does not matter, the pairing does
+            tokens = sorted(tokenize(kv) for kv in batched(tokens, 2, strict=True))
+        return (type(self).__name__, self.klass, tokens)
 
     @staticmethod
     def to_container(*args, constructor):
